@@ -10,7 +10,7 @@ from ptstat import AnalysisError, algebra
 from ptstat.symval import SymObj, Phi, SymRaise, merge
 from ptstat.world import mass_sym
 from .common import world, eq, dict_eq, fsite, raises, folder, _s
-from .C12 import action, action_site, _action_qual
+from .C12 import action, action_site, _action_qual, action_tokens
 
 EXPLANATION = (
     "Value graphs of _mix_by_weight_pairs/_mix_by_volume_pairs, of mix_by_weight/mix_by_volume and of "
@@ -215,24 +215,27 @@ def _run(ctx):
         hf = HELPER[mode][1]
         site = action_site(ctx, I, w, f"convert_by_{mode}")
         f1, f2, f3 = comps()
-        r = I.call(act, ["<s>", 0, [p1, f1, p2, f2, f3]], {})
+        unit_ = {"weight": "wt%", "volume": "vol%"}[mode]
+        toks = lambda a_, b_, fs: action_tokens(I, w, f"convert_by_{mode}", f"7{unit_} Fe // 11% Co // O2" if b_ is not None else f"7{unit_} Fe // O2",
+                                                {7: a_, 11: b_} if b_ is not None else {7: a_}, fs)
+        r = I.call(act, ["<s>", 0, toks(p1, p2, [f1, f2, f3])], {})
         rh = I.call(hf, [[(f1, p1), (f2, p2), (f3, 100 - p1 - p2)]], {})
         for atom in (Fe, O, H):
             eq(ctx, "R3", f"'p1 {mode[0]}% A // p2% B // C': count of {atom!r} as helper([(A,p1),(B,p2),(C,100-p1-p2)])",
                I.getattr(r, "atoms")[atom], I.getattr(rh, "atoms")[atom], site)
         f1, f2, f3 = comps()
-        rr = raises(lambda: I.call(act, ["<s>", 0, [sp.Integer(60), f1, sp.Integer(50), f2, f3]], {}))
+        rr = raises(lambda: I.call(act, ["<s>", 0, toks(sp.Integer(60), sp.Integer(50), [f1, f2, f3])], {}))
         ctx.check(rr == "ValueError", "R3", f"by {mode}: percentages above 100 raise ValueError", f"got {rr}", site)
         # boundaries of the percentages: a remainder below one percent, and no remainder at all
         for pa, pb in ((sp.Integer(60), sp.Rational(79, 2)), (sp.Rational(999, 10), sp.Rational(1, 20))):
             f1, f2, f3 = comps()
-            rr = raises(lambda: I.call(act, ["<s>", 0, [pa, f1, pb, f2, f3]], {}))
+            rr = raises(lambda: I.call(act, ["<s>", 0, toks(pa, pb, [f1, f2, f3])], {}))
             ctx.check(rr is None, "R3", f"by {mode}: {float(pa):g}% + {float(pb):g}% leaves {float(100 - pa - pb):g}% for the last part", f"raises {rr}", site)
         f1, f2, f3 = comps()
-        rr = raises(lambda: I.call(act, ["<s>", 0, [sp.Integer(60), f1, sp.Integer(40), f2, f3]], {}))
+        rr = raises(lambda: I.call(act, ["<s>", 0, toks(sp.Integer(60), sp.Integer(40), [f1, f2, f3])], {}))
         ctx.check(rr is None, "R3", f"by {mode}: percentages summing to exactly 100 are accepted (the last part gets nothing)", f"raises {rr}", site)
         f1, f2, f3 = comps()
-        r = I.call(act, ["<s>", 0, [sp.Integer(30), f1, f3]], {})
+        r = I.call(act, ["<s>", 0, toks(sp.Integer(30), None, [f1, f3])], {})
         rh = I.call(hf, [[(f1, sp.Integer(30)), (f3, sp.Integer(70))]], {})
         eq(ctx, "R3", f"by {mode}: two parts, remainder goes to the last", I.getattr(r, "atoms")[H], I.getattr(rh, "atoms")[H], site)
     # layers
@@ -243,19 +246,20 @@ def _run(ctx):
     LU = I.global_name("formulas", "LENGTH_UNITS")
     for u1, u2 in (("nm", "um"), ("mm", "cm")):
         f1, f2, f3 = comps()
-        r = I.call(act, ["<s>", 0, [[t1, u1], f1, [t2, u2], f2]], {})
+        r = I.call(act, ["<s>", 0, action_tokens(I, w, "convert_by_layer", f"7 {u1} Fe // 11 {u2} Co", {7: t1, 11: t2}, [f1, f2])], {})
         rh = I.call(hv, [[(f1, t1 * SI[u1[0]]), (f2, t2 * SI[u2[0]])]], {})
         eq(ctx, "R3", f"'t1 {u1} A // t2 {u2} B': volume mix in the ratio of the thicknesses in metres",
            I.getattr(r, "mass_fraction")[Fe], I.getattr(rh, "mass_fraction")[Fe], site)
         eq(ctx, "R3", f"layers [{u1},{u2}]: thickness records the total in metres", I.getattr(r, "thickness"),
            t1 * SI[u1[0]] + t2 * SI[u2[0]], site)
     f1, f2, f3 = comps()
-    inner = I.call(act, ["<s>", 0, [[t1, "nm"], f1, [t2, "nm"], f2]], {})
+    inner = I.call(act, ["<s>", 0, action_tokens(I, w, "convert_by_layer", "7 nm Fe // 11 nm Co", {7: t1, 11: t2}, [f1, f2])], {})
     rep = sp.Symbol("rep", positive=True)
-    rr = raises(lambda: I.call(act, ["<s>", 0, [inner, rep, [t2, "um"], f3]], {}))
+    outer = lambda: action_tokens(I, w, "convert_by_layer", "(7 nm Fe // 11 nm Co)5 // 13 um O2", {5: rep, 13: t2}, [inner, f3])
+    rr = raises(lambda: I.call(act, ["<s>", 0, outer()], {}))
     ctx.check(rr is None, "R3", "repeated layer group '(...)n // t C' is accepted", f"raises {rr}", site)
     if rr is None:
-        r = I.call(act, ["<s>", 0, [inner, rep, [t2, "um"], f3]], {})
+        r = I.call(act, ["<s>", 0, outer()], {})
         eq(ctx, "R3", "repeated layer group: thickness = n * inner thickness + rest", I.getattr(r, "thickness"),
            rep * (t1 + t2) * SI["n"] + t2 * SI["u"], site)
         rh = I.call(hv, [[(inner, rep * (t1 + t2) * SI["n"]), (f3, t2 * SI["u"])]], {})
@@ -270,7 +274,7 @@ def _run(ctx):
     v1, v2 = sp.symbols("v1 v2", positive=True)
     for u1, u2 in (("mg", "kg"), ("g", "ug"), ("ng", "g")):
         f1, f2, f3 = comps()
-        r = I.call(act, ["<s>", 0, [[v1, u1], f1, [v2, u2], f2]], {})
+        r = I.call(act, ["<s>", 0, action_tokens(I, w, "convert_by_absmass", f"7 {u1} Fe // 11 {u2} Co", {7: v1, 11: v2}, [f1, f2])], {})
         g1, g2 = v1 * SI[u1[:-1]], v2 * SI[u2[:-1]]
         rh = I.call(hw, [[(f1, g1), (f2, g2)]], {})
         eq(ctx, "R3", f"'v1 {u1} A // v2 {u2} B': weight mix in the ratio of the masses in grams",
@@ -278,18 +282,18 @@ def _run(ctx):
         eq(ctx, "R3", f"masses [{u1},{u2}]: total_mass records the total in grams", I.getattr(r, "total_mass"), g1 + g2, site)
     for u1, u2 in (("mL", "g"), ("L", "uL"), ("nL", "mg")):
         f1, f2, f3 = comps()
-        r = I.call(act, ["<s>", 0, [[v1, u1], f1, [v2, u2], f2]], {})
+        r = I.call(act, ["<s>", 0, action_tokens(I, w, "convert_by_absmass", f"7 {u1} Fe // 11 {u2} Co", {7: v1, 11: v2}, [f1, f2])], {})
         g1 = v1 * SI[u1[:-1]] * 1000 * d[0]                      # litres -> mL -> grams
         g2 = v2 * SI[u2[:-1]] * (1000 * d[1] if u2.endswith("L") else 1)
         eq(ctx, "R3", f"volumes [{u1},{u2}]: total_mass = volume * density in grams", I.getattr(r, "total_mass"), g1 + g2, site)
         rh = I.call(hw, [[(f1, g1), (f2, g2)]], {})
         eq(ctx, "R3", f"'v1 {u1} A // v2 {u2} B': mass fractions", I.getattr(r, "mass_fraction")[Fe], I.getattr(rh, "mass_fraction")[Fe], site)
     f1, f2, f3 = comps(dens=(True, False, True))
-    rr = raises(lambda: I.call(act, ["<s>", 0, [[v1, "mL"], f2, [v2, "g"], f1]], {}))
+    rr = raises(lambda: I.call(act, ["<s>", 0, action_tokens(I, w, "convert_by_absmass", "7 mL Fe // 11 g Co", {7: v1, 11: v2}, [f2, f1])], {}))
     ctx.check(rr == "ValueError", "R3", "a volume of a material of unknown density raises ValueError", f"got {rr}", site)
     f1, f2, f3 = comps()
-    inner = I.call(act, ["<s>", 0, [[v1, "g"], f1, [v2, "g"], f2]], {})
-    r = I.call(act, ["<s>", 0, [inner, rep, [v2, "mg"], f3]], {})
+    inner = I.call(act, ["<s>", 0, action_tokens(I, w, "convert_by_absmass", "7 g Fe // 11 g Co", {7: v1, 11: v2}, [f1, f2])], {})
+    r = I.call(act, ["<s>", 0, action_tokens(I, w, "convert_by_absmass", "(7 g Fe // 11 g Co)5 // 13 mg O2", {5: rep, 13: v2}, [inner, f3])], {})
     eq(ctx, "R3", "repeated mass group: total_mass = n * inner + rest", I.getattr(r, "total_mass"),
        rep * (v1 + v2) + v2 * SI["m"], site)
     # keywords given together with a mixture string do not lose what the string recorded
